@@ -117,6 +117,28 @@ def run_task(task):
             task["out"] = (task["out"] or "") + "\n--- crasher re-run failed: %s ---\n" % e
     return task
 
+def panic_site(out):
+    """innermost repository frame of a panic reported in a test's output, or None"""
+    repo = os.path.realpath(REPO)
+    m = re.search(r"\[rapid\] panic after \d+ tests?: (.*)\n(?:.*\n)*?\s*Traceback:\n\s*(\S+\.go):(\d+) in (\S+)", out)
+    if m:
+        path = os.path.realpath(m.group(2)) if os.path.isabs(m.group(2)) else m.group(2)
+        if path.startswith(repo + os.sep):
+            return "%s (%s:%s): %s" % (m.group(4), os.path.relpath(path, repo), m.group(3), m.group(1)[:200])
+        return None
+    m = re.search(r"^panic: (.*)$", out, re.M)
+    if m and "goroutine " in out[m.end():]:
+        # standard runtime trace: function line followed by "\t/path/file.go:NN +0x.."
+        frames = re.findall(r"^(\S.*)\n\t(\S+\.go):(\d+)", out[m.end():], re.M)
+        for fn, path, line in frames:
+            if fn.startswith(("panic(", "runtime.", "testing.", "runtime/")) or "/usr/local/go/" in path or "/go/src/" in path:
+                continue
+            rp = os.path.realpath(path)
+            if rp.startswith(repo + os.sep):
+                return "%s (%s:%s): %s" % (fn.split("(")[0], os.path.relpath(rp, repo), line, m.group(1)[:200])
+            return None
+    return None
+
 def classify(task):
     """returns 'ok' | 'violation' | 'inconclusive'"""
     out = task["out"] or ""
@@ -130,6 +152,13 @@ def classify(task):
                 return "inconclusive"
         return "ok"
     if "VERIF-VIOLATION" in out:
+        return "violation"
+    # a Go panic raised inside the code under test (innermost frame below the repository root)
+    # while a property was being evaluated: the operation the property is about crashed instead of
+    # answering. Panics whose innermost frame is in the harness or a library stay inconclusive.
+    site = panic_site(out)
+    if site:
+        task["panic_site"] = site
         return "violation"
     if task.get("fuzz") and task["crashers"] and task.get("crasher_reproduced"):
         return "violation"
@@ -317,7 +346,11 @@ def main():
                 rp = os.path.join(replay_dir, "%s-s%d-output.json" % (t["name"], t["shard"]))
                 json.dump({"property": pid, "test": t["name"], "tier": tier, "shard": t["shard"], "verif_seed": seed,
                            "files": kept, "output_tail": (t["out"] or "")[-4000:]}, open(rp, "w"), indent=1)
-                violations.append(dict(fingerprint="unclassified", part=t["name"], message="see output", replay=rp, test=t["name"], shard=t["shard"]))
+                if t.get("panic_site"):
+                    fn = t["panic_site"].split(" ")[0]
+                    violations.append(dict(fingerprint="%s/panic/%s" % (pid, fn.split("/")[-1]), part=t["name"], message="the code under test panicked while the property was evaluated: " + t["panic_site"], replay=rp, test=t["name"], shard=t["shard"]))
+                else:
+                    violations.append(dict(fingerprint="unclassified", part=t["name"], message="see output", replay=rp, test=t["name"], shard=t["shard"]))
             else:
                 for v in mine:
                     if v.get("replay") and os.path.exists(v["replay"]) and kept:
